@@ -990,6 +990,12 @@ class Bada3FuelBurnModel(BaseFuelBurnModel):
 
             mass[0] = initial_mass
 
+            # re-anchor the profile at the new initial mass so that the
+            # returned vector stays the integral of the fuel burn from mass[0]
+            mass = self.update_mass_vector(
+                mass, specific_ground_range, segment_distance
+            )
+
             final_mass_pct_change = (
                 np.abs(mass[-1] - old_final_mass) / old_final_mass
             ) * 100
@@ -1107,6 +1113,12 @@ class Bada3FuelBurnModel(BaseFuelBurnModel):
             )
 
             mass[0] = initial_mass
+
+            # re-anchor the profile at the new initial mass so that the
+            # returned vector stays the integral of the fuel burn from mass[0]
+            mass = self.update_mass_vector(
+                mass, specific_ground_range, segment_distance
+            )
 
             final_mass_pct_change = (
                 np.abs(mass[-1] - old_final_mass) / old_final_mass
